@@ -1,5 +1,7 @@
 package main
 
+import "crypto/sha256"
+
 var knownSig = []int{0, 1, 2, 3, 4, 5, 6, 7, 8, 11}
 var knownCrypto = []int{0, 1, 2, 3, 4, 5, 6, 7}
 var unknownCodes = []int{9, 10, 12, 20, 255, 256, 65280, 65534, 65535}
@@ -188,7 +190,49 @@ func genCerts(g *G, count int) {
 
 var identOps = []string{"readKac", "readDest", "readRid", "readKacElgEd", "readKacXEd"}
 
+func genIdentityAccessors(g *G, count int) {
+	r := g.R
+	g.in("ident-accessors")
+	for i := 0; i < count; i++ {
+		var b []byte
+		switch r.intn(4) {
+		case 0:
+			b = g.encIdentity([]byte{0, 0, 0})
+		case 1:
+			b = g.encIdentity(encKeyCert(supSig[r.intn(len(supSig))], r.pick(0, 4), r.bytes(r.rng(0, 5))))
+		default:
+			b = g.encIdentity(encKeyCert(r.pick(0, 1, 2, 7, 11), r.pick(0, 4), nil))
+		}
+		// the SHA-256 of the identity's own extent (the harness knows where its encoding ends)
+		sum := sha256.Sum256(b)
+		if r.coin(0.3) {
+			b = cat(b, r.bytes(r.rng(1, 6)))
+		}
+		g.emit("destAddr", hx(b), hx(sum[:]))
+	}
+}
+
+func genLookups(g *G) {
+	g.in("lookup-known-and-boundaries")
+	for _, c := range []int{-65529, -1, 0, 1, 2, 3, 4, 5, 6, 7, 8, 9, 10, 11, 12, 13, 20, 21, 255, 256, 65279, 65280, 65534, 65535, 65536, 65543, 1 << 20} {
+		g.emit("lookup", itoa(c))
+	}
+	if g.quick() {
+		g.in("lookup-random")
+		for i := 0; i < 3000; i++ {
+			g.emit("lookup", itoa(g.R.intn(65536)))
+		}
+		return
+	}
+	g.in("lookup-exhaustive")
+	for c := 0; c < 65536; c++ {
+		g.emit("lookup", itoa(c))
+	}
+}
+
 func init() {
+	suites["LOOKUPS"] = genLookups
+	suites["IDENT"] = func(g *G) { genIdentityAccessors(g, g.n(200, 5000)) }
 	suites["KAC"] = func(g *G) {
 		genCerts(g, g.n(300, 10000))
 		genIdentities(g, identOps, g.n(1500, 40000))
